@@ -186,7 +186,17 @@ func judgeDedup(o *pbt.Outcome, rows []gen.Row, wilds []string, gotRows []gen.Ro
 			o.Ambiguous++
 			o.Class("group-order-differs(accepted)")
 		default:
-			err = fmt.Errorf("groups reported: %v\n want: %v", gotGroups, m.groups)
+			if len(m.groups) > 20 && len(gotGroups) == len(m.groups) {
+				for gi := range m.groups {
+					if strings.Join(gotGroups[gi], ",") != strings.Join(m.groups[gi], ",") {
+						err = fmt.Errorf("%d groups reported; group %d is %v, want %v", len(gotGroups), gi, gotGroups[gi], m.groups[gi])
+						break
+					}
+				}
+			}
+			if err == nil {
+				err = fmt.Errorf("groups reported: %v\n want: %v", gotGroups, m.groups)
+			}
 		}
 		if err == nil {
 			if ri > 0 && !(gen.SameRows(m.kept, readings[0].kept) && sameGroups(m.groups, readings[0].groups)) {
@@ -217,19 +227,106 @@ type dedupCase struct {
 	Big *bigRows `json:"big,omitempty"`
 }
 
+// manyDistinct: N pairwise distinct strings of length L over Chars (string k spells k in base
+// |Chars|, most significant digit first, after the multiplication by Mul modulo |Chars|^L which
+// scatters them), interleaved with duplicates: Dups[i] = {p, q} puts a copy of string q right behind
+// string p (q <= p). Few numbers describe hundreds of rows / columns
+type manyDistinct struct {
+	Chars string   `json:"chars"`
+	L     int      `json:"l"`
+	N     int      `json:"n"`
+	Mul   int      `json:"mul"`
+	Dups  [][2]int `json:"dups"`
+}
+
+func (m *manyDistinct) spell(k int) string {
+	space := 1
+	for i := 0; i < m.L; i++ {
+		space *= len(m.Chars)
+	}
+	v := (k * m.Mul) % space
+	b := make([]byte, m.L)
+	for i := m.L - 1; i >= 0; i-- {
+		b[i] = m.Chars[v%len(m.Chars)]
+		v /= len(m.Chars)
+	}
+	return string(b)
+}
+
+func (m *manyDistinct) list() []string {
+	var out []string
+	for k := 0; k < m.N; k++ {
+		out = append(out, m.spell(k))
+		for _, d := range m.Dups {
+			if d[0] == k {
+				out = append(out, m.spell(d[1]))
+			}
+		}
+	}
+	return out
+}
+
+// genManyDistinct: N around the usual growth points of slices and tables (100, 128, 200, 256, 400,
+// 512, 1024 when the space allows), duplicates of early, middle and late members placed early,
+// in the middle and - mostly - late
+func genManyDistinct(t *rapid.T, chars string, l int, sizes []int) *manyDistinct {
+	m := &manyDistinct{Chars: chars, L: l}
+	space := 1
+	for i := 0; i < l; i++ {
+		space *= len(chars)
+	}
+	m.N = rapid.SampledFrom(sizes).Draw(t, "manyN")
+	if m.N > space {
+		m.N = space
+	}
+	// a multiplier coprime with the size of the space keeps the strings distinct
+	for _, c := range []int{rapid.SampledFrom([]int{1, 7, 11, 13, 17, 29, 31, 37, 41, 43}).Draw(t, "manymul"), 1} {
+		if gcd(c, space) == 1 {
+			m.Mul = c
+			break
+		}
+	}
+	m.Dups = [][2]int{}
+	for k := rapid.IntRange(1, 8).Draw(t, "manydups"); k > 0; k-- {
+		p := m.N - 1 - rapid.IntRange(0, m.N-1).Draw(t, "manydupbehind") // biased to the end
+		if rapid.IntRange(0, 3).Draw(t, "manydupanywhere") == 0 {
+			p = rapid.IntRange(0, m.N-1).Draw(t, "manydupat")
+		}
+		q := rapid.IntRange(0, p).Draw(t, "manydupof") // biased to the early members
+		m.Dups = append(m.Dups, [2]int{p, q})
+	}
+	return m
+}
+
+var manySizes = []int{99, 100, 101, 102, 127, 128, 129, 199, 200, 201, 256, 257, 400, 401, 513}
+
 // bigRows: many rows drawn from a small pool. Row i holds Pool[Idx[i]] and is named
 // s<(i*NameMul) mod n> (NameMul coprime with n: distinct names, not in sorted order)
 type bigRows struct {
-	Pool    []string `json:"pool"`
-	Idx     []int    `json:"idx"`
+	Pool    []string `json:"pool,omitempty"`
+	Idx     []int    `json:"idx,omitempty"`
 	NameMul int      `json:"namemul"`
+	// Many: instead of Pool/Idx, more than ~100 distinct rows with a few duplicates
+	Many *manyDistinct `json:"many,omitempty"`
 }
 
 func (b *bigRows) rows() []gen.Row {
-	n := len(b.Idx)
+	var seqs []string
+	if b.Many != nil {
+		seqs = b.Many.list()
+	} else {
+		for _, k := range b.Idx {
+			seqs = append(seqs, b.Pool[k])
+		}
+	}
+	n := len(seqs)
+	mul := b.NameMul
+	if mul == 0 || gcd(mul, n) != 1 {
+		mul = 1
+	}
 	rows := make([]gen.Row, n)
-	for i, k := range b.Idx {
-		rows[i] = gen.Row{Name: fmt.Sprintf("s%03d", (i*b.NameMul)%n), Seq: b.Pool[k]}
+	for i, sq := range seqs {
+		rows[i] = gen.Row{Name: fmt.Sprintf("s%03d", (i*mul)%n), Seq: sq}
 	}
 	return rows
 }
@@ -365,6 +462,14 @@ func genDedup(t *rapid.T) dedupCase {
 	if rapid.SampledFrom([]int{0, 0, 0, 0, 0, 0, 0, 0, 0, 0, 0, 0, 0, 0, 0, 0, 0, 0, 0, 0, 0, 0, 0, 1}).Draw(t, "big") == 1 {
 		// low-rate class: 13..200 rows
 		c.Big = genBigRows(t, c.Ali.Alphabet, c.Bag, bigRowCounts)
+		if rapid.IntRange(0, 2).Draw(t, "many") == 0 {
+			// ... or 99..520 pairwise distinct rows with a few duplicates, mostly late ones of early rows
+			chars := "ACGT"
+			if rapid.Bool().Draw(t, "manywild") {
+				chars = "AC" + string(wildcard(c.Ali.Alphabet)) + "-T"
+			}
+			c.Big = &bigRows{Many: genManyDistinct(t, chars, 5, manySizes), NameMul: rapid.SampledFrom([]int{1, 7, 11, 13}).Draw(t, "manyname")}
+		}
 		c.Mode = rapid.SampledFrom([]string{"", "", "unknown", "auto"}).Draw(t, "mode")
 		return c
 	}
@@ -418,6 +523,14 @@ func alphabetName(code int) string {
 		return "UNKNOWN"
 	}
 	return fmt.Sprint(code)
+}
+
+func readDistinct(rows []gen.Row) map[string]bool {
+	d := map[string]bool{}
+	for _, r := range rows {
+		d[r.Seq] = true
+	}
+	return d
 }
 
 func classifyDedup(o *pbt.Outcome, rows []gen.Row, nAsGap bool, wild string) {
@@ -538,6 +651,9 @@ func checkDedup(c dedupCase) (o pbt.Outcome, err error) {
 	if open {
 		o.Class("wildcard-open(bag=%v)", c.Bag)
 	}
+	if len(readDistinct(rows)) > 100 {
+		o.Class("large:distinct rows>100")
+	}
 	switch {
 	case len(rows) >= 100:
 		o.Class("large:rows>=100,bag=%v", c.Bag)
@@ -611,26 +727,36 @@ type compressCase struct {
 // bigCols: a long alignment. Column j holds the pattern Pool[Cycle[j mod len(Cycle)]], except the
 // columns Over[k][0], which hold Pool[Over[k][1]]; rows are named r0, r1, ...
 type bigCols struct {
-	Pool  []string `json:"pool"`
-	Cycle []int    `json:"cycle"`
-	L     int      `json:"l"`
-	Over  [][2]int `json:"over"`
+	Pool  []string `json:"pool,omitempty"`
+	Cycle []int    `json:"cycle,omitempty"`
+	L     int      `json:"l,omitempty"`
+	Over  [][2]int `json:"over,omitempty"`
+	// Many: instead of the above, hundreds of pairwise distinct columns with a few repeated ones
+	Many *manyDistinct `json:"many,omitempty"`
 }
 
 func (b *bigCols) ali() gen.Ali {
-	n := len(b.Pool[0])
-	cols := make([]int, b.L)
-	for j := range cols {
-		cols[j] = b.Cycle[j%len(b.Cycle)]
+	var patterns []string
+	if b.Many != nil {
+		patterns = b.Many.list()
+	} else {
+		cols := make([]int, b.L)
+		for j := range cols {
+			cols[j] = b.Cycle[j%len(b.Cycle)]
+		}
+		for _, ov := range b.Over {
+			cols[ov[0]] = ov[1]
+		}
+		for _, k := range cols {
+			patterns = append(patterns, b.Pool[k])
+		}
 	}
-	for _, ov := range b.Over {
-		cols[ov[0]] = ov[1]
-	}
+	n := len(patterns[0])
 	a := gen.Ali{Alphabet: "nt"}
 	for i := 0; i < n; i++ {
-		row := make([]byte, b.L)
-		for j, k := range cols {
-			row[j] = b.Pool[k][i]
+		row := make([]byte, len(patterns))
+		for j, p := range patterns {
+			row[j] = p[i]
 		}
 		a.Rows = append(a.Rows, gen.Row{Name: fmt.Sprintf("r%d", i), Seq: string(row)})
 	}
@@ -757,8 +883,12 @@ func genPatterns(t *rapid.T, chars string, maxRows, maxLen int) gen.Ali {
 
 func genCompress(t *rapid.T) compressCase {
 	if rapid.SampledFrom([]int{0, 0, 0, 0, 0, 0, 0, 0, 0, 0, 0, 0, 0, 0, 0, 0, 0, 0, 0, 0, 0, 0, 0, 0, 0, 0, 0, 0, 0, 0, 0, 0, 0, 0, 0, 0, 0, 0, 0, 1}).Draw(t, "big") == 1 {
-		// low-rate class: 1 023..5 000 sites
-		return compressCase{Big: genBigCols(t, bigColLengths, 5000)}
+		// low-rate class: 1 023..5 000 sites over a small pool of patterns ...
+		if rapid.IntRange(0, 2).Draw(t, "many") != 0 {
+			return compressCase{Big: genBigCols(t, bigColLengths, 5000)}
+		}
+		// ... or 99..1 100 pairwise distinct patterns (4-6 rows) with a few repeated ones
+		return compressCase{Big: &bigCols{Many: genManyDistinct(t, "ACGT", rapid.IntRange(4, 6).Draw(t, "manyrows"), append([]int{1023, 1024, 1025, 1100}, manySizes...))}}
 	}
 	chars := "AC"
 	alphabet := "nt"
@@ -825,6 +955,14 @@ func judgeCompress(orig []gen.Row, got []gen.Row, weights []int) error {
 		return fmt.Errorf("column-additive statistic %d after compression, %d before", gotStat, wantStat)
 	}
 	return nil
+}
+
+func readDistinctCols(rows []gen.Row) map[string]bool {
+	d := map[string]bool{}
+	for _, c := range columnsOf(rows) {
+		d[c] = true
+	}
+	return d
 }
 
 func classifyCompress(o *pbt.Outcome, rows []gen.Row) {
@@ -930,6 +1068,12 @@ func checkCompress(c compressCase) (o pbt.Outcome, err error) {
 	}
 	classifyCompress(&o, rows)
 	o.Class("alphabet=%s", c.Ali.Alphabet)
+	if nd := len(readDistinctCols(rows)); nd > 100 {
+		o.Class("large:distinct patterns>100")
+		if nd > 1024 {
+			o.Class("large:distinct patterns>1024")
+		}
+	}
 	if L := len(rows[0].Seq); L > 1024 {
 		o.Class("large:sites>1024")
 		if L%1024 <= 1 {
@@ -1026,9 +1170,15 @@ func TestCLI(t *testing.T) {
 					c.Alphabet = "nt" // detection of {A,C,N,-} is open: judged under every reading
 				}
 				c.BigD = genBigRows(t, c.Alphabet, c.Unaligned, []int{13, 14, 17, 20, 33, 60})
+				if rapid.IntRange(0, 3).Draw(t, "many") == 0 {
+					c.BigD = &bigRows{Many: genManyDistinct(t, "ACGT", 5, []int{100, 101, 129, 201}), NameMul: 7}
+				}
 			} else {
 				c.Alphabet, c.AlphaFlag = "nt", "nt"
 				c.BigC = genBigCols(t, []int{1023, 1024, 1025, 2048, 2049, 0}, 2100)
+				if rapid.IntRange(0, 3).Draw(t, "many") == 0 {
+					c.BigC = &bigCols{Many: genManyDistinct(t, "ACGT", 5, []int{100, 101, 129, 257, 1023})}
+				}
 			}
 			return c
 		}
